@@ -14,7 +14,14 @@
 
 #define NOASAN __attribute__((no_sanitize_address))
 
-#if defined(SIM_ASAN)
+#if defined(SIM_RNG)
+#include <sys/wait.h>
+#include "rngdev.hh"
+static const char *VARIANT = "rng";
+extern "C" __attribute__((used, visibility("default"))) const char *__asan_default_options() {
+  return "exitcode=77:detect_leaks=0:abort_on_error=0:detect_stack_use_after_return=0:allocator_may_return_null=1";
+}
+#elif defined(SIM_ASAN)
 static const char *VARIANT = "asan";
 extern "C" __attribute__((used, visibility("default"))) const char *__asan_default_options() {
   return "exitcode=77:detect_leaks=0:abort_on_error=0:detect_stack_use_after_return=0:allocator_may_return_null=1";
@@ -70,6 +77,11 @@ void crash_exit(const char *why, const char *detail) {
   std::string s = r.dump() + "\n";
   (void)!write(1, s.data(), s.size());
   _exit(strcmp(why, "machinery") == 0 ? 2 : 78);
+}
+static void on_watchdog(int) {
+  static const char m[] = "{\"ok\":false,\"crash\":\"machinery\",\"why\":\"watchdog: one run exceeded its wall-clock limit\"}\n";
+  (void)!write(1, m, sizeof m - 1);
+  _exit(2);
 }
 static void on_fatal_signal(int sig) {
   static const char m1[] = "{\"ok\":false,\"crash\":\"signal\",\"signal\":";
@@ -169,6 +181,11 @@ NOASAN const char *PatSet::scan(const void *p, size_t n, size_t *off) const {
   return nullptr;
 }
 
+NOASAN static std::string hexdump_raw(const void *p, size_t n) {
+  static const char d[] = "0123456789abcdef"; std::string s; const unsigned char *c = (const unsigned char *)p;
+  for (size_t i = 0; i < n; i++) { s += d[c[i] >> 4]; s += d[c[i] & 15]; }
+  return s;
+}
 // ================================================================= tasks, stacks, deep calls
 TaskStack g_stack[MAX_TASKS];
 #define TASK_STACK_SIZE (2u << 20)
@@ -247,7 +264,8 @@ struct DataObj {
   std::string state = "fresh";          // fresh | success | failure | scribbled
   std::set<std::string> returned;       // strings successful calls returned from this object
   // C17 model
-  int key_state = 0;                    // 0 unset, 1 known, 2 invalidated
+  int key_state = 0;                    // 0 unset, 1 known, 2 erased by a hashing call, 3 overwritten by the application
+  bool input_tainted = false, setting_tainted = false;   // the caller itself put a phrase/setting there
   unsigned char key[8];
 };
 struct Slot {
@@ -480,7 +498,7 @@ static OpFaultView fault_view(int t) {
 static void leak_check(Run &r, int t, int i, const char *when) {
   for (auto &kv : MemLayer::get().live) {
     const Block &b = kv.second;
-    if (b.from_harness || b.release_refused) continue;
+    if (b.from_harness || b.release_refused || b.task != t) continue;   // other tasks' blocks may be in flight
     if (is_caller_owned(r, (const void *)kv.first)) continue;
     violation(nullptr, "leak", t, i, vfmt("%s of %zu bytes allocated by the library in t%d op%d is still live %s and belongs to nobody",
                                           b.is_map ? "mapping" : "heap block", b.size, b.task, b.op, when));
@@ -524,10 +542,10 @@ static void exec_hash(Run &r, int t, int i, const J &op) {
     stat("probe_gensalt_static_passed_to_crypt");
   }
   if (cd && full_object && op.i("phin") && !c.phrase.null && c.phrase.b.size() < sizeof cd->input) {
-    memcpy(cd->input, c.phrase.b.c_str(), c.phrase.b.size() + 1); php = cd->input; stat("probe_phrase_in_object");
+    memcpy(cd->input, c.phrase.b.c_str(), c.phrase.b.size() + 1); php = cd->input; stat("probe_phrase_in_object"); if (obj) obj->input_tainted = true;
   }
   if (cd && full_object && op.i("stin") && !c.setting.null && c.setting.b.size() < sizeof cd->setting && stsrc != "gs") {
-    memcpy(cd->setting, c.setting.b.c_str(), c.setting.b.size() + 1); stp = cd->setting; stat("probe_setting_in_object");
+    memcpy(cd->setting, c.setting.b.c_str(), c.setting.b.size() + 1); stp = cd->setting; stat("probe_setting_in_object"); if (obj) obj->setting_tainted = true;
   }
 
   // application scribbles over the scratch area (legal: the object is the caller's)
@@ -540,8 +558,9 @@ static void exec_hash(Run &r, int t, int i, const J &op) {
       garbage_fill(cd, CD, (uint64_t)op.i("gseed") + 3);
       if (php == cd->input) memcpy(cd->input, keep_in.data(), sizeof cd->input);
       if (stp == cd->setting) memcpy(cd->setting, keep_st.data(), sizeof cd->setting);
+      if (obj) { obj->input_tainted = php == cd->input; obj->setting_tainted = stp == cd->setting; }
     }
-    if (obj) obj->key_state = obj->key_state ? 2 : 0;
+    if (obj) obj->key_state = pre == "zero" ? (obj->key_state ? 2 : 0) : 3;
     stat("probe_scratch_scribbled_" + pre);
   }
   ScratchSnap snap; if (cd && full_object) snap = snap_scratch(cd);
@@ -606,7 +625,7 @@ static void exec_hash(Run &r, int t, int i, const J &op) {
                    (!c.setting.null && !setting_chars_ok(c.setting.b)) || fv.effective > 0;
   // a crypt_ra whose block could not be (re)allocated never reaches the hash
   RefOut exp;
-  if (!must_fail || op.has("mustfail")) {
+  if (!must_fail) {
     exp = RefClient::get().hash(c.phrase, c.setting);
     if (exp.bad) crash_exit("machinery", ("refsrv: " + exp.raw).c_str());
   }
@@ -660,8 +679,8 @@ static void exec_hash(Run &r, int t, int i, const J &op) {
     if (cd && full_object) {
       // everything but what the caller put into input/setting
       struct Rg { const char *p; size_t n; const char *name; } rg[] = {
-          {cd->output, sizeof cd->output, "output"}, {cd->setting, php == cd->input || stp == cd->setting ? 0 : sizeof cd->setting, "setting"},
-          {cd->input, php == cd->input ? 0 : sizeof cd->input, "input"},
+          {cd->output, sizeof cd->output, "output"}, {cd->setting, (obj && obj->setting_tainted) || stp == cd->setting ? 0 : sizeof cd->setting, "setting"},
+          {cd->input, (obj && obj->input_tainted) || php == cd->input ? 0 : sizeof cd->input, "input"},
           {cd->reserved, sizeof cd->reserved + 1 + sizeof cd->internal, "reserved/initialized/internal"}};
       for (auto &g : rg) if (g.n && (enc = pat.scan(g.p, g.n, &off))) {
         violation(nullptr, "residue-in-object", t, i, vfmt("data->%s holds the passphrase (%s) at +%zu after %s returned", g.name, enc, off, c.kind.c_str())); break; }
@@ -675,7 +694,7 @@ static void exec_hash(Run &r, int t, int i, const J &op) {
     }
 #ifdef SIM_O0
     if ((enc = pat.scan(dr.lo, (size_t)(dr.hi - dr.lo), &off))) {
-      violation(nullptr, "residue-on-stack", t, i, vfmt("stack region used by %s(%s) holds the passphrase (%s) %zu bytes below the caller's frame", c.kind.c_str(), op.str("m", "?").c_str(), enc, (size_t)(dr.hi - dr.lo) - off));
+      violation(nullptr, "residue-on-stack", t, i, vfmt("stack region used by %s(%s) holds the passphrase (%s) %zu bytes below the caller's frame: ..%s..", c.kind.c_str(), op.str("m", "?").c_str(), enc, (size_t)(dr.hi - dr.lo) - off, hexdump_raw(dr.lo + off - 8, 32).c_str()));
     }
     stat("probe_stack_scans");
 #endif
@@ -718,7 +737,8 @@ static void exec_hash(Run &r, int t, int i, const J &op) {
   // model/state updates
   if (state) *state = c.failed ? "failure" : "success";
   if (earlier && !c.failed) earlier->insert(c.res);
-  if (obj) obj->key_state = obj->key_state ? 2 : 0;   // hashing wipes the scratch area that held setkey_r's schedule
+  if (obj && full_object && obj->key_state != 3) obj->key_state = obj->key_state ? 2 : 0;   // hashing wipes the scratch area that held setkey_r's schedule
+  if (obj && full_object && obj->key_state == 3 && scratch_zero(obj->cd)) obj->key_state = 2;
   if (small) { thr::region_del(small); free(small); }
 }
 
@@ -737,6 +757,11 @@ static void exec_gensalt(Run &r, int t, int i, const J &op) {
   std::vector<int> faults; for (auto &f : op.at("faults").a) faults.push_back((int)f.n);
   MemLayer::get().begin_op(t, faults, false);
   EntropyDev::get().begin_op(t);
+#ifdef SIM_RNG
+  g_rngdev.script.clear();
+  bool scripted = false;
+  for (auto &kv : op.at("script").o) { for (auto &o : kv.second.a) { g_rngdev.script[kv.first].push_back(o.s); scripted = true; } }
+#endif
   ev(vfmt("call t%d op%d %s pf=%s count=%lu rb=%s nrb=%d osz=%d", t, i, kind.c_str(), prefix.null ? "NULL" : prefix.b.c_str(), count,
           rb.null ? "NULL" : hexenc(rb.b).c_str(), nrb, osz));
   char *ret = nullptr; int err = 0;
@@ -801,6 +826,32 @@ static void exec_gensalt(Run &r, int t, int i, const J &op) {
         violation(nullptr, "failure-token", t, i, "failing crypt_gensalt_rn left something other than a failure token in the buffer");
     }
   }
+#ifdef SIM_RNG
+  if (rb.null) {
+    // C12-6: every descriptor opened for /dev/urandom is closed again before the call returns
+    if (!g_rngdev.open_fds.empty()) {
+      violation(nullptr, "fd-leak", t, i, vfmt("%s returned with %zu descriptor(s) on /dev/urandom still open", kind.c_str(), g_rngdev.open_fds.size()));
+      g_rngdev.open_fds.clear();
+    }
+    // C12-5: bounded liveness.  No fault in this call, and the configuration still has a source that has never
+    // failed in this process (so it cannot legitimately have been written off): the call must succeed.
+    if (!scripted && failed && have_exp && draws.empty()) {
+      static const char *src[] = {"getentropy", "getrandom", "sys_getrandom", "urandom"};
+      int bits[] = {1, 2, 4, 8};
+      int conf = (g_rngdev.variant & 7) | 8;
+      for (int k = 0; k < 4; k++)
+        if ((conf & bits[k]) && !g_rngdev.failed_sources.count(src[k])) {
+          RefOut would = RefClient::get().gensalt(prefix, count, Bytes(std::string(64, 'x')), 64, osz);
+          if (would.ok) violation(nullptr, "no-progress-after-faults", t, i, vfmt("%s failed although no fault was injected in this call and source '%s' has never failed in this process", kind.c_str(), src[k]));
+          break;
+        }
+      stat("probe_liveness_checks");
+    }
+    if (scripted) stat("ops_with_injected_fault");
+    if (scripted && failed) stat("probe_all_sources_failed_call_failed");
+    if (scripted && !failed) stat("probe_fallback_source_succeeded");
+  }
+#endif
   // C09-5 / C12-7: the drawn bytes are wiped from the library's buffer after a successful draw
   if (rb.null && (r.o_c09 || r.o_c12) && !failed && !draws.empty() && draws.back().bytes.size() >= 4) {
     const EntropyDraw &d = draws.back();
@@ -880,6 +931,10 @@ static void exec_des(Run &r, int t, int i, const J &op) {
     int flag = (int)op.i("flag");
     DataObj *obj = kind == "encrypt_r" ? &tc.objs.at((size_t)op.i("obj")) : nullptr;
     std::vector<char> bb(blk.begin(), blk.end());
+    if (obj && (obj->key_state == 3 || (obj->key_state == 0 && !scratch_zero(obj->cd)))) {
+      // encrypt_r on an object whose scratch area holds application garbage is a caller error, not a history to explore
+      record_result(r, t, i, kind + " skipped: no key schedule in the object"); stat("des_encrypt_skipped_no_key"); return;
+    }
     thr::region_add(bb.data(), 64, t, "des-block-vector");
     thr::api_boundary(t, i, true);
     deepcall(t, [&]() { if (obj) _crypt_encrypt_r(bb.data(), flag, obj->cd); else _crypt_encrypt(bb.data(), flag); }, false);
@@ -949,7 +1004,7 @@ static void exec_scribble(Run &r, int t, int i, const J &op) {
   DataObj &o = r.tc[t].objs.at((size_t)op.i("obj"));
   std::string what = op.str("what", "garbage");
   if (what == "zero") memset(o.cd, 0, CD); else garbage_fill(o.cd, CD, (uint64_t)op.i("gseed") + 11);
-  o.state = "scribbled"; o.key_state = o.key_state ? 2 : 0;
+  o.state = "scribbled"; o.key_state = what == "zero" ? (o.key_state ? 2 : 0) : 3; o.input_tainted = o.setting_tainted = false;
   sig_add(r, "scribble:" + what);
   ev(vfmt("scribble t%d op%d obj=%lld %s", t, i, (long long)op.i("obj"), what.c_str()));
   stat("op_scribble");
@@ -980,9 +1035,11 @@ static void exec_prim(Run &r, int t, int i, const J &op) {
         violation(nullptr, "context-not-erased", t, i, vfmt("%s: the %zu-byte context is not all zero after finalisation", prim_name(alg), used));
     }
 #ifdef SIM_O0
+    // The statement promises context erasure for the primitives; what a *direct* primitive call leaves on
+    // its stack is not part of it (the stack clause is about hashing calls).  Counted, never a verdict:
+    // on the unchanged tree SHA512_Transform's W[80], gost_hash256 and gost_hmac256 do leave such copies.
     size_t off; const char *enc = pat.scan(dr.lo, (size_t)(dr.hi - dr.lo), &off);
-    stat("probe_stack_scans");
-    if (enc) violation(nullptr, "residue-on-stack", t, i, vfmt("stack region used by %s holds the %s (%s) %zu bytes below the caller's frame", prim_name(alg), op.str("secret", "msg").c_str(), enc, (size_t)(dr.hi - dr.lo) - off));
+    if (enc) stat(std::string("incidental_prim_stack_residue_") + prim_name(alg));
 #endif
   }
   (void)dr;
@@ -1021,6 +1078,7 @@ static RunOut run_plan(const J &plan, uint64_t fill_override, bool use_override)
   g_viol = Violation(); g_viol_extra = 0; g_trace_hash = 0xcbf29ce484222325ULL; g_events = 0; g_event_text.clear(); g_stats.clear();
   g_run_seed = (uint64_t)plan.i("seed");
   g_phase = "run";
+  alarm(180);   // a run is milliseconds to a few seconds; anything near this is a generator mistake, never a verdict
   const std::string &p = g_prop;
   r.o_ref = (p == "C07" || p == "C08" || p == "C17" || p == "C14" || p == "C09" || p == "C12");
   r.o_c05 = p == "C05"; r.o_c09 = p == "C09"; r.o_c12 = p == "C12"; r.o_c14 = p == "C14"; r.o_c15 = p == "C15"; r.o_c17 = (p == "C17" || p == "C08");
@@ -1033,6 +1091,9 @@ static RunOut run_plan(const J &plan, uint64_t fill_override, bool use_override)
   MemLayer &ml = MemLayer::get();
   ml.begin_run(env);
   EntropyDev::get().begin_run((uint64_t)plan.at("env").i("entropy_seed", (long long)g_run_seed));
+#ifdef SIM_RNG
+  g_rngdev = RngDev(); g_rngdev.variant = (int)plan.i("rng_variant", 0);
+#endif
   g_release_hook = on_release;
   ev(vfmt("run prop=%s seed=%llu tasks=%d", p.c_str(), (unsigned long long)g_run_seed, r.ntasks));
   thr::begin_run(plan.at("schedule"), g_run_seed, r.ntasks);
@@ -1050,6 +1111,7 @@ static RunOut run_plan(const J &plan, uint64_t fill_override, bool use_override)
       r.tc[t].objs.push_back(o);
     }
     r.tc[t].slots.resize((size_t)tj.i("slots", 0));
+    if (!r.tc[t].slots.empty()) thr::region_add(r.tc[t].slots.data(), r.tc[t].slots.size() * sizeof(Slot), t, "ra-slot");
   }
 
   thr::run_tasks(r.ntasks, task_body, &r, TASK_STACK_SIZE);
@@ -1068,7 +1130,7 @@ static RunOut run_plan(const J &plan, uint64_t fill_override, bool use_override)
   { std::vector<std::pair<void *, Block>> rest; for (auto &kv : ml.live) rest.emplace_back((void *)kv.first, kv.second);
     for (auto &e : rest) ml.h_free(e.first); }
   J thrinfo = thr::end_run();
-  for (int t = 0; t < r.ntasks; t++) for (auto &o : r.tc[t].objs) { thr::region_del(o.base); free(o.base); }
+  for (int t = 0; t < r.ntasks; t++) { for (auto &o : r.tc[t].objs) { thr::region_del(o.base); free(o.base); } if (!r.tc[t].slots.empty()) thr::region_del(r.tc[t].slots.data()); }
   g_release_hook = nullptr;
 
   // nontrivial-case rules (stated in evidence 'rule')
@@ -1082,6 +1144,7 @@ static RunOut run_plan(const J &plan, uint64_t fill_override, bool use_override)
     if (p == "C07") r.nontrivial = shared;
     else if (p == "C05") r.nontrivial = any_fail_after_success || g_stats["probe_failure_after_failure_same_object"] > 0;
     else if (p == "C09") r.nontrivial = g_stats["probe_residue_scans"] + g_stats["probe_ctx_wipe_checks"] + g_stats["probe_entropy_wipe_checks"] > 0;
+    else if (p == "C12" && VARIANT[0] == 'r') r.nontrivial = g_stats["ops_with_injected_fault"] > 0;
     else if (p == "C12") r.nontrivial = g_stats["probe_auto_entropy_calls"] > 0;
     else if (p == "C14") r.nontrivial = g_stats["probe_ra_growth"] > 0 || g_stats["calls_failed"] > 0 || g_stats["gensalt_failed"] > 0;
     else if (p == "C15") r.nontrivial = g_stats["ops_with_injected_fault"] > 0;
@@ -1102,6 +1165,7 @@ static RunOut run_plan(const J &plan, uint64_t fill_override, bool use_override)
   res["hash"] = vfmt("%016llx", (unsigned long long)g_trace_hash);
   res["events"] = (long long)g_events;
   res["sig"] = vfmt("%016llx", (unsigned long long)r.hist_sig);
+  res["fallible_last"] = (long long)ml.fallible_seen[0];
   res["nontrivial"] = r.nontrivial;
   J st = J::obj();
   for (auto &kv : g_stats) st[kv.first] = (long long)kv.second;
@@ -1109,7 +1173,7 @@ static RunOut run_plan(const J &plan, uint64_t fill_override, bool use_override)
   res["stats"] = st;
   if (thrinfo.t == J::OBJ && thrinfo.size()) res["thr"] = thrinfo;
   out.result = res; out.transcript = r.results;
-  g_run = nullptr; g_phase = "idle";
+  g_run = nullptr; g_phase = "idle"; alarm(0);
   return out;
 }
 
@@ -1133,6 +1197,36 @@ static J run_plan_checked(const J &plan) {
   return a.result;
 }
 
+#ifdef SIM_RNG
+// one run = one process lifetime (util-get-random-bytes.c memoises broken sources in statics)
+static J run_isolated(const J &plan) {
+  int pfd[2]; if (pipe(pfd)) { perror("pipe"); _exit(2); }
+  pid_t pid = fork();
+  if (pid == 0) {
+    close(pfd[0]);
+    J r = run_plan_checked(plan);
+    std::string s = r.dump();
+    size_t off = 0; while (off < s.size()) { ssize_t w = write(pfd[1], s.data() + off, s.size() - off); if (w <= 0) break; off += (size_t)w; }
+    _exit(0);
+  }
+  close(pfd[1]);
+  std::string buf; char tmp[65536]; ssize_t n;
+  while ((n = read(pfd[0], tmp, sizeof tmp)) > 0) buf.append(tmp, (size_t)n);
+  close(pfd[0]);
+  int st = 0; while (waitpid(pid, &st, 0) < 0 && errno == EINTR) {}
+  J r;
+  if (!WIFEXITED(st) || WEXITSTATUS(st) != 0 || !J::parse(buf, r)) {
+    r = J::obj(); r["seed"] = plan.at("seed"); r["prop"] = plan.str("property"); r["ok"] = false; r["hash"] = "crash";
+    J v = J::obj(); v["prop"] = plan.str("property"); v["cls"] = "crash"; v["task"] = 0; v["op"] = -1;
+    v["msg"] = vfmt("run process ended abnormally (wait status %d)", st); r["viol"] = v;
+  }
+  return r;
+}
+#define RUN_PLAN(p) run_isolated(p)
+#else
+#define RUN_PLAN(p) run_plan_checked(p)
+#endif
+
 // ================================================================= front end
 static void usage() {
   fprintf(stderr, "usage: simcrypt --refsrv PATH (--prop P --tier T --seeds A:B[:STEP] | --replay FILE | --gen P SEED TIER) [--trace] [--twice]\n");
@@ -1149,7 +1243,7 @@ int main(int argc, char **argv) {
       execv("/proc/self/exe", argv);
     }
   }
-  std::string refsrv, prop, tier = "quick", seeds, replay, genprop; uint64_t genseed = 0; bool twice = false;
+  std::string refsrv, prop, tier = "quick", seeds, replay, genprop, plansfile; uint64_t genseed = 0; bool twice = false; long skip = 0;
   for (int a = 1; a < argc; a++) {
     std::string s = argv[a];
     auto need = [&](int n) { if (a + n >= argc) usage(); };
@@ -1159,11 +1253,14 @@ int main(int argc, char **argv) {
     else if (s == "--seeds") { need(1); seeds = argv[++a]; }
     else if (s == "--replay") { need(1); replay = argv[++a]; }
     else if (s == "--gen") { need(3); genprop = argv[++a]; genseed = strtoull(argv[++a], nullptr, 10); tier = argv[++a]; }
+    else if (s == "--plans") { need(1); plansfile = argv[++a]; }
+    else if (s == "--skip") { need(1); skip = atol(argv[++a]); }
     else if (s == "--trace") g_log_events = true;
     else if (s == "--twice") twice = true;
     else usage();
   }
   for (int sg : {SIGSEGV, SIGBUS, SIGILL, SIGFPE}) signal(sg, on_fatal_signal);
+  signal(SIGALRM, on_watchdog);
   load_hashconf();
   if (!refsrv.empty()) RefClient::get().start(refsrv);
   if (!genprop.empty()) { emit(generate_plan(genprop, genseed, tier)); return 0; }
@@ -1173,11 +1270,28 @@ int main(int argc, char **argv) {
   if (!replay.empty()) {
     std::string text, err; J plan;
     if (!read_file(replay, text) || !J::parse(text, plan, &err)) { fprintf(stderr, "cannot read plan %s: %s\n", replay.c_str(), err.c_str()); return 2; }
-    J r1 = run_plan_checked(plan);
-    if (twice) { J r2 = run_plan_checked(plan); r1["hash2"] = r2.str("hash"); r1["deterministic"] = r1.str("hash") == r2.str("hash") && r1.i("ok") == r2.i("ok"); }
+    J r1 = RUN_PLAN(plan);
+    if (twice) { J r2 = RUN_PLAN(plan); r1["hash2"] = r2.str("hash"); r1["deterministic"] = r1.str("hash") == r2.str("hash") && r1.i("ok") == r2.i("ok"); }
     if (g_log_events) { J e = J::arr(); for (auto &l : g_event_text) e.push(l); r1["events_text"] = e; }
     emit(r1);
     return r1.i("ok") ? 0 : 1;
+  }
+  if (!plansfile.empty()) {
+    std::string text; if (!read_file(plansfile, text)) { fprintf(stderr, "cannot read %s\n", plansfile.c_str()); return 2; }
+    size_t pos = 0; long idx = 0;
+    while (pos < text.size()) {
+      size_t e = text.find('\n', pos); if (e == std::string::npos) e = text.size();
+      std::string line = text.substr(pos, e - pos); pos = e + 1;
+      if (line.empty()) continue;
+      if (idx++ < skip) continue;
+      J plan; std::string err; if (!J::parse(line, plan, &err)) { fprintf(stderr, "bad plan line %ld: %s\n", idx, err.c_str()); return 2; }
+      g_run_seed = (uint64_t)plan.i("seed"); g_prop = plan.str("property");
+      J r = RUN_PLAN(plan); r["index"] = (long long)(idx - 1);
+      if (plan.has("tag")) r["tag"] = plan.at("tag");
+      emit(r);
+    }
+    J fin = J::obj(); fin["done"] = true; emit(fin);
+    return 0;
   }
   if (prop.empty() || seeds.empty()) usage();
   unsigned long long a = 0, b = 0, step = 1;
@@ -1187,7 +1301,7 @@ int main(int argc, char **argv) {
     g_run_seed = s; g_prop = prop; g_phase = "generate";
     J plan = generate_plan(prop, s, tier);
     struct timeval t0, t1; gettimeofday(&t0, nullptr);
-    J r = run_plan_checked(plan);
+    J r = RUN_PLAN(plan);
     gettimeofday(&t1, nullptr);
     r["ms"] = (long long)((t1.tv_sec - t0.tv_sec) * 1000 + (t1.tv_usec - t0.tv_usec) / 1000);
     if (!r.i("ok") || (s - a) / step < 3) r["plan"] = plan;   // violating plans, and a few samples for the evidence
